@@ -2,7 +2,7 @@
 import importlib, json, os, re
 from analysis.runner import rule, Ctx, run_rule, _RULES
 from analysis.facts import AnchorError
-from analysis import terms as T, k2, obligations as O, intervals as IV
+from analysis import terms as T, k2, obligations as O, intervals as IV, facts as F
 from analysis import chessref as R
 from analysis.cfg import cfg_of
 from analysis.effects import subterms
@@ -188,6 +188,79 @@ def context_safe(P, s, fn=None, depth=0, seen=None):
         if not context_safe(P, s, c, depth + 1, seen):
             return False
     return True
+
+
+ITEM_ADAPTORS = {"core::iter::traits::iterator::Iterator::" + n for n in ("map", "filter", "for_each", "any", "all", "filter_map", "find", "position", "flat_map", "take_while", "skip_while", "inspect")}
+ITEM_SOURCES = ("::iter", "::into_iter", "::copied", "::cloned", "::rev")
+
+
+def adaptor_safe(P, s):
+    """A site inside a closure whose only use is as the per-item function of an iterator adaptor (`map`, `filter`, `any`, ...) running over a
+    literal / constant array of tuples or integers: analysed with the item's integer parts ranging over that table's columns."""
+    fn = s["fn"]
+    if "::{closure" not in fn or s["kind"] == "unsafe":
+        return False
+    parent = fn.rsplit("::{closure", 1)[0]
+    body = P.fns.get(parent)
+    if body is None:
+        return False
+    made = [st_ for blk in body["blocks"] for st_ in blk["s"] if st_["k"] == "assign" and st_["r"].get("k") == "agg" and st_["r"].get("ak") == "closure" and st_["r"].get("fn") == fn]
+    if len(made) != 1 or made[0]["p"]["pj"]:
+        return False
+    cl = made[0]["p"]["l"]
+    uses = 0
+    for blk in body["blocks"]:
+        for x in blk["s"] + [blk["t"]]:
+            for o in F.walk_operands(x):
+                if o.get("k") in ("copy", "move") and o["p"]["l"] == cl:
+                    uses += 1
+            if x.get("k") == "assign" and x["r"].get("k") in ("ref", "rawptr") and x["r"]["p"]["l"] == cl:
+                return False
+    if uses != 1:
+        return False
+    eng = T.Engine(P)
+    eng.unroll_arrays = False
+    eng.trace_calls = set(ITEM_ADAPTORS)
+    try:
+        r_, l_, p_ = eng.paths(parent)
+    except T.NotTabulable:
+        return False
+    tables = set()
+    for lf in r_ + l_ + p_:
+        for tr in lf.trace:
+            if tr[0] != "call" or tr[1] not in ITEM_ADAPTORS or len(tr[2]) != 2 or tr[2][1][0] != "closure" or tr[2][1][1] != fn:
+                continue
+            src = tr[2][0]
+            while src[0] == "app" and (src[1].endswith(ITEM_SOURCES) or T.strip_turbofish(src[1]).endswith(ITEM_SOURCES)) and len(src[2]) == 1:
+                src = src[2][0]
+            while src[0] in ("refv", "obj"):
+                src = src[1]
+            if src[0] != "array":
+                return False
+            tables.add(src)
+    if len(tables) != 1:
+        return False
+    elems = list(tables)[0][1]
+    cols = {}
+    for e in elems:
+        parts = list(enumerate(e[1])) if e[0] == "tuple" else [(None, e)]
+        for j, x in parts:
+            if T.is_const(x):
+                cols.setdefault(j, []).append(x[1])
+            else:
+                cols.setdefault(j, []).append(None)
+    prm = ("param", 1, "a1")
+    bases = [prm, ("obj", prm), ("obj", ("obj", prm))]
+    init = {}
+    for j, vs in cols.items():
+        if any(v is None for v in vs):
+            continue
+        for b in bases:
+            init[b if j is None else ("field", b, j)] = (min(vs), max(vs))
+    if not init:
+        return False
+    v, err = IV.analyse_fn(P, fn, inline=True, max_states=8000, init=init)
+    return bool(v) and v.get((s["fn"], s["block"])) == "safe"
 
 
 def const_only(P, fn, depth=0):
@@ -756,7 +829,7 @@ def r1(ctx):
             classes.setdefault("const", []).append(s["key"])
             ctx.ob(f"const:{s['key']}", True, "", sample={"site": s["key"], "class": "const fn reachable only from constant initialisers"} if len(classes["const"]) <= 1 else None)
             continue
-        if e is None and context_safe(P, s):
+        if e is None and (context_safe(P, s) or adaptor_safe(P, s)):
             classes.setdefault("A", []).append(s["key"])
             ctx.ob(f"A:{s['key']}", True, "", sample={"site": s["key"], "class": "A (intervals, in every calling context)"})
             continue
@@ -838,7 +911,7 @@ def discharge_subset(ctx, roots, tag):
         e = matched.get(s["key"], (None, None))[0]
         if e is None and s["kind"] != "unsafe" and const_only(P, s["fn"]):
             continue
-        if e is None and context_safe(P, s):
+        if e is None and (context_safe(P, s) or adaptor_safe(P, s)):
             continue
         if e is None:
             probs.append(f"undischarged {s['kind']} {s['what']} in {s['fn']}")
